@@ -371,7 +371,16 @@ def run_task(name, fn, settings=None, timeout_ms=60000, both=False, min_return_p
         out.seconds = time.time() - t0
         return out
     except Exception as e:
-        out.status, out.message = "error", "%s: %s\n%s" % (type(e).__name__, e, traceback.format_exc())
+        tb = traceback.extract_tb(e.__traceback__)
+        last = tb[-1] if tb else None
+        if isinstance(e, (KeyError, IndexError)) and last is not None and os.sep + "checks" + os.sep in last.filename:
+            # a ghost script of the harness (state recorded per loop iteration / per position) looked up something the
+            # code no longer produces: the proof script does not fit the code - nothing is proved, nothing refuted
+            out.status = "shape-mismatch"
+            out.message = "CONTRACT-SHAPE-MISMATCH ghost script at %s:%d does not fit the code (%s: %s)" % (
+                os.path.basename(last.filename), last.lineno, type(e).__name__, e)
+        else:
+            out.status, out.message = "error", "%s: %s\n%s" % (type(e).__name__, e, traceback.format_exc())
         out.seconds = time.time() - t0
         return out
     out.paths = ex.n_paths
